@@ -23,6 +23,7 @@ def dispatch (j : Json) : R Json := do
   | "to_rfi" => handleToRfi j
   | "to_mef" => handleToMef j
   | "meta" => handleMeta j
+  | "stats" => handleStats j
   | "ping" => pure (Json.mkObj [("pong", Json.bool true)])
   | _ => throw s!"unknown op {op}"
 
